@@ -525,7 +525,54 @@ pub fn geometry_event() -> Value {
         let ok: Vec<i32> = (-70i32..=70).filter(|d| std::panic::catch_unwind(|| c.add(*d as isize)).map(|r| r.index() as i32 == c.index() as i32 + d).unwrap_or(false)).collect();
         adds.push(json!(ok));
     }
-    json!({"ev": "t_geometry", "shifts": shifts, "adds": adds})
+    // extreme deltas: anything that leaves the board must give None, however large
+    let big: [isize; 12] = [isize::MIN, isize::MIN / 2, isize::MIN / 4, isize::MIN / 8, isize::MAX, isize::MAX / 2, isize::MAX / 4,
+                            isize::MAX / 8 + 1, 1 << 61, -(1 << 61), (1 << 61) + 1, 1 << 32];
+    let mut extreme = 0usize;
+    let mut extreme_some = Vec::new();
+    for c in Coord::iter() {
+        for a in big.iter() {
+            for b in [-1isize, 0, 1, 8, -8] {
+                for (df, dr) in [(*a, b), (b, *a), (*a, *a)] {
+                    extreme += 1;
+                    if let Ok(Some(x)) = std::panic::catch_unwind(|| c.shift(df, dr)) {
+                        extreme_some.push(json!([c.index(), x.index()]));
+                    }
+                }
+            }
+        }
+    }
+    json!({"ev": "t_geometry", "shifts": shifts, "adds": adds, "extreme_tried": extreme, "extreme_on_board": extreme_some})
+}
+
+/// The bitboard iterator as a Rust iterator: every adaptor must behave like the same call on the ascending
+/// vector of squares (the model), including exhaustion after a failed nth().
+pub fn iter_events(rng: &mut StdRng) -> Vec<Value> {
+    let mut rows = Vec::new();
+    let mut sets: Vec<Bitboard> = vec![Bitboard::EMPTY, Bitboard::FULL, Bitboard::from_raw(1), Bitboard::from_raw(1 << 63)];
+    for _ in 0..120 {
+        sets.push(Bitboard::from_raw(rng.gen::<u64>() & rng.gen::<u64>() & rng.gen::<u64>()));
+        sets.push(Bitboard::from_raw(rng.gen::<u64>()));
+    }
+    for x in sets {
+        for n in [0usize, 1, 2, 3, 5, 9, 63, 64, 70] {
+            let mut it = x.into_iter();
+            let hint = it.size_hint();
+            let a = it.nth(n).map(|c| c.index() as i32).unwrap_or(-1);
+            let b = it.next().map(|c| c.index() as i32).unwrap_or(-1);
+            let rest = it.count();
+            let skipped: Vec<usize> = x.into_iter().skip(n).map(|c| c.index()).collect();
+            let stepped: Vec<usize> = x.into_iter().step_by(n + 1).map(|c| c.index()).collect();
+            let taken: Vec<usize> = x.into_iter().take(n).map(|c| c.index()).collect();
+            rows.push(json!({"x": bb_json(x), "n": n, "nth": a, "then_next": b, "then_count": rest,
+                             "hint_lo": hint.0, "hint_hi": hint.1.map(|h| h as i64).unwrap_or(-1),
+                             "count": x.into_iter().count(), "last": x.into_iter().last().map(|c| c.index() as i32).unwrap_or(-1),
+                             "skip": skipped, "step_by": stepped, "take": taken,
+                             "min": x.into_iter().map(|c| c.index() as i32).min().unwrap_or(-1),
+                             "max": x.into_iter().map(|c| c.index() as i32).max().unwrap_or(-1)}));
+        }
+    }
+    rows.chunks(256).map(|ch| json!({"ev": "bb_iter", "rows": ch})).collect()
 }
 
 pub fn bitboard_events(rng: &mut StdRng) -> Vec<Value> {
